@@ -1900,7 +1900,10 @@ func (t *tScreen) mainLoop(stopQ chan struct{}) {
 			// then we assume the escape sequence reached its
 			// conclusion, and process the chunk independently.
 			// This lets us detect conflicts such as a lone ESC.
-			if buf.Len() > 0 {
+			// It is only a timeout if no further input has arrived:
+			// when the application polls slowly we can get here long
+			// after the rest of the sequence was read and queued.
+			if buf.Len() > 0 && len(t.keychan) == 0 {
 				if time.Now().After(t.keyexpire) {
 					t.scanInput(buf, true, stopQ)
 				}
